@@ -4,20 +4,31 @@
 //
 //   c04 <P> <flags> <hints> : seg;seg;...
 //
-//   <flags>  P digits, digit of rank r = (two ? 1 : 0) + (includeSelf ? 2 : 0)
-//            two: the rank constructs RemoteIndices(source, target) with two distinct index set objects,
-//            otherwise RemoteIndices(source, source)
+//   <flags>  P digits, digit of rank r = (two ? 1 : 0) + (includeSelf ? 2 : 0) + (defaultCtor ? 4 : 0)
+//            two: the rank uses RemoteIndices(source, target) with two distinct index set objects (object 0 and 1),
+//            otherwise RemoteIndices(source, source) (object 0)
+//            defaultCtor: the object is made by RemoteIndices() + setIndexSets(...) + setIncludeSelf(...) instead of
+//            the five-argument constructor
 //   <hints>  per rank, separated by '/':  "-" (no neighbour hints: ring) or a comma list of ranks
-//   segments, executed in order by every rank (every rank knows the whole distributed case):
-//     a<s>,<r>,<g>,<l>,<attr>,<pub>   pending add to set s (0 source, 1 target) of rank r
-//     d<s>,<r>,<g>                    pending delete of every entry with global g in set s of rank r (also cancels
+//   segments, executed in order by every rank (every rank knows the whole distributed case).  <s> is a *role*:
+//   0 = the current source index set of the rank, 1 = its current target index set (on a one-set rank the source
+//   object), 2 = an index set the RemoteIndices object does not refer to:
+//     a<s>,<r>,<g>,<l>,<attr>,<pub>   pending add to the object behind role s (0/1) of rank r
+//     d<s>,<r>,<g>                    pending delete of every entry with global g in that object (also cancels
 //                                     the pending adds of g there)
-//     R<s>                            every rank resizes (beginResize … endResize) its source (s=0) / target (s=1)
-//                                     index set object, applying the pending adds/deletes of that object; on a
-//                                     one-set rank the target object *is* the source object; s=2 resizes an
-//                                     index set the RemoteIndices object does not refer to
-//     B<ign>                          collective rebuild<ign>(); observation: the remote index lists
+//     R<s>                            every rank resizes (beginResize … endResize) the object behind role s, applying
+//                                     the pending adds/deletes of that object
+//     r<s>,<r>                        only rank r does
+//     B<ign>                          collective rebuild<ign>(); observation: the remote index lists.  The ranks first
+//                                     tell each other whether their rebuild would really rebuild (never built / freed,
+//                                     other ignorePublic, !isSynced()); if they disagree the call would not return
+//                                     (some ranks communicate, the others do not): it is skipped, observation "b!"
 //     S                               observation: isSynced()
+//     F                               every rank calls free(); observation: f<neighbours()>
+//     X<k>                            every rank calls setIndexSets again: k=0 same roles, k=1 source and target
+//                                     exchanged (two-set ranks); observation: x<neighbours()>
+//     I<r>,<b>                        rank r calls setIncludeSelf(b)
+//     N<hints>                        every rank calls setNeighbours with its part of <hints> (format as in the header)
 //   (a1/d1 addressed to a one-set rank are ignored; an add whose (global, attribute) is already present is ignored)
 //
 // Answer of a rank: the observations joined by ';' :
@@ -29,6 +40,7 @@
 #include <algorithm>
 #include <array>
 #include <map>
+#include <memory>
 #include <set>
 
 #include <dune/common/enumset.hh>
@@ -151,6 +163,42 @@ static void applyResize(PIS& set, Shadow& sh, Pending& pe, bool real) {
   pe.dels.clear();
 }
 
+// parse "<h0>/<h1>/..." into per-rank hint lists; returns false if malformed
+static bool parseHints(const std::string& str, int P, std::vector<std::vector<int>>& hints) {
+  auto hs = split(str, '/');
+  if ((int)hs.size() != P) return false;
+  hints.assign(P, std::vector<int>());
+  for (int r = 0; r < P; ++r) {
+    if (hs[r] == "-") continue;
+    for (auto& w : split(hs[r], ',')) {
+      if (w.empty()) return false;
+      for (char c : w) if (c < '0' || c > '9') return false;
+      int q = std::atoi(w.c_str());
+      if (q < 0 || q >= P) return false;
+      hints[r].push_back(q);
+    }
+  }
+  return true;
+}
+// ring[r]: the hint list names no other rank (RemoteIndices erases the own rank).  Ring and neighbour mode cannot be
+// mixed, and hints have to be symmetric, otherwise the collective call hangs.
+static const char* hintsProblem(const std::vector<std::vector<int>>& hints, std::vector<bool>& ring) {
+  int P = (int)hints.size();
+  ring.assign(P, true);
+  for (int r = 0; r < P; ++r) {
+    std::set<int> hset(hints[r].begin(), hints[r].end());
+    hset.erase(r);
+    ring[r] = hset.empty();
+  }
+  for (int r = 0; r < P; ++r) {
+    if (ring[r] != ring[0]) return "mixed-ring";
+    if (!ring[r])
+      for (int q : hints[r])
+        if (q != r && std::find(hints[q].begin(), hints[q].end(), r) == hints[q].end()) return "asymmetric";
+  }
+  return nullptr;
+}
+
 static Result exec(const std::string& line) {
   int rank, size;
   MPI_Comm_rank(MPI_COMM_WORLD, &rank);
@@ -166,58 +214,61 @@ static Result exec(const std::string& line) {
   std::string body = colon == std::string::npos ? "" : line.substr(colon + 3);
   auto hw = words(head);
   if (hw.size() != 4 || hw[0] != "c04") return bad("header");
+  for (char c : hw[1]) if (c < '0' || c > '9') return bad("np");
   int P = std::atoi(hw[1].c_str());
   if (P != size) return bad("np");
   if ((int)hw[2].size() != P) return bad("flags");
-  std::vector<bool> two(P), incl(P);
+  std::vector<bool> two(P), incl(P), dflt(P);
   for (int r = 0; r < P; ++r) {
     int f = hw[2][r] - '0';
-    if (f < 0 || f > 3) return bad("flags");
+    if (f < 0 || f > 7) return bad("flags");
     two[r] = f & 1;
     incl[r] = f & 2;
+    dflt[r] = f & 4;
   }
-  auto hs = split(hw[3], '/');
-  if ((int)hs.size() != P) return bad("hints");
-  std::vector<std::vector<int>> hints(P);
-  std::vector<bool> ring(P);
-  for (int r = 0; r < P; ++r) {
-    if (hs[r] == "-") { ring[r] = true; continue; }
-    for (auto& w : split(hs[r], ',')) {
-      if (w.empty()) return bad("hints");
-      int q = std::atoi(w.c_str());
-      if (q < 0 || q >= P) return bad("hints");
-      hints[r].push_back(q);
-    }
-    // a hint list that only names the rank itself degenerates to ring mode (RemoteIndices erases the own rank)
-    std::set<int> hset(hints[r].begin(), hints[r].end());
-    hset.erase(r);
-    ring[r] = hset.empty();
-  }
-  // ring and neighbour mode cannot be mixed, and hints have to be symmetric, otherwise the collective call hangs
-  for (int r = 0; r < P; ++r) {
-    if (ring[r] != ring[0]) return bad("mixed-ring");
-    if (!ring[r])
-      for (int q : hints[r])
-        if (q != r && std::find(hints[q].begin(), hints[q].end(), r) == hints[q].end()) return bad("asymmetric");
-  }
-  bool mixed = false, anyIncl = false;
-  for (int r = 0; r < P; ++r) { if (two[r] != two[0]) mixed = true; if (incl[r]) anyIncl = true; }
+  std::vector<std::vector<int>> hints;
+  std::vector<bool> ring;
+  if (!parseHints(hw[3], P, hints)) return bad("hints");
+  if (const char* why = hintsProblem(hints, ring)) return bad(why);
+  bool mixed = false, anyIncl = false, anyDflt = false;
+  for (int r = 0; r < P; ++r) { if (two[r] != two[0]) mixed = true; if (incl[r]) anyIncl = true; if (dflt[r]) anyDflt = true; }
 
-  // shadow state of every rank (objects 0 = source, 1 = target, 2 = unrelated), real state of this rank
-  std::vector<std::array<Shadow, 3>> sh(P);
-  std::vector<std::array<Pending, 3>> pend(P);
-  PIS sets[3];
-  RI ri(sets[0], two[rank] ? sets[1] : sets[0], MPI_COMM_WORLD, hints[rank], incl[rank]);
-
-  std::vector<std::string> obs;
-  bool built = false, resizedSince = false, nontrivial = false, dupGlobals = false;
-  std::string fail;
-  long nB = 0, nS = 0, nR = 0, nEntries = 0;
-
+  // validate all segments before anything collective happens (every rank sees the same line)
+  std::vector<std::string> segs;
   for (auto& segRaw : split(body, ';')) {
     std::string seg;
     for (char c : segRaw) if (c != ' ') seg.push_back(c);
-    if (seg.empty()) continue;
+    if (!seg.empty()) segs.push_back(seg);
+  }
+
+  // shadow state of every rank (objects 0, 1, 2), real state of this rank; roles: which object is source / target
+  std::vector<std::array<Shadow, 3>> sh(P);
+  std::vector<std::array<Pending, 3>> pend(P);
+  std::vector<int> srcO(P, 0), tgtO(P, 0);
+  for (int r = 0; r < P; ++r) tgtO[r] = two[r] ? 1 : 0;
+  auto objOf = [&](int r, int s) { return s == 2 ? 2 : (s == 0 ? srcO[r] : tgtO[r]); };
+  PIS sets[3];
+  std::unique_ptr<RI> rip;
+  if (dflt[rank]) {
+    rip.reset(new RI());
+    rip->setIndexSets(sets[srcO[rank]], sets[tgtO[rank]], MPI_COMM_WORLD, hints[rank]);
+    if (incl[rank]) rip->setIncludeSelf(true);  // otherwise the default constructor's includeSelf=false stays
+  } else {
+    rip.reset(new RI(sets[srcO[rank]], sets[tgtO[rank]], MPI_COMM_WORLD, hints[rank], incl[rank]));
+  }
+  RI& ri = *rip;
+
+  std::vector<std::string> obs;
+  // built: a rebuild has happened on this object since construction / free / setIndexSets
+  bool built = false, lastIgn = false, resizedSince = false, nontrivial = false, dupGlobals = false;
+  // includeSelf / hints in force at the last real build (the lists are judged against them)
+  std::vector<bool> bIncl = incl, bRing = ring;
+  std::vector<std::vector<int>> bHints = hints;
+  std::string fail;
+  long nB = 0, nS = 0, nR = 0, nEntries = 0, nSkipped = 0, nNoop = 0, nPartial = 0, nF = 0, nX = 0, nI = 0, nN = 0;
+  long maxList = 0;
+
+  for (auto& seg : segs) {
     char kind = seg[0];
     if (kind == 'a' || kind == 'd') {
       auto f = split(seg.substr(1), ',');
@@ -225,25 +276,37 @@ static Result exec(const std::string& line) {
       int s = std::atoi(f[0].c_str()), r = std::atoi(f[1].c_str());
       if (s < 0 || s > 1 || r < 0 || r >= P) return bad("segment");
       if (s == 1 && !two[r]) continue;
+      int o = objOf(r, s);
       if (kind == 'a') {
         Ent e{std::atol(f[2].c_str()), std::atol(f[3].c_str()), std::atoi(f[4].c_str()), f[5] == "1"};
         if (e.a < 0 || e.a > 3 || e.l < 0) return bad("segment");
-        pend[r][s].adds.push_back(e);
+        pend[r][o].adds.push_back(e);
       } else {  // a delete also cancels the pending adds of that global
         long g = std::atol(f[2].c_str());
-        auto& ad = pend[r][s].adds;
+        auto& ad = pend[r][o].adds;
         ad.erase(std::remove_if(ad.begin(), ad.end(), [&](const Ent& e) { return e.g == g; }), ad.end());
-        pend[r][s].dels.insert(g);
+        pend[r][o].dels.insert(g);
       }
-    } else if (kind == 'R') {
-      if (seg.size() != 2 || seg[1] < '0' || seg[1] > '2') return bad("segment");
+    } else if (kind == 'R' || kind == 'r') {
+      int only = -1;
+      if (kind == 'R') {
+        if (seg.size() != 2 || seg[1] < '0' || seg[1] > '2') return bad("segment");
+      } else {
+        auto f = split(seg.substr(1), ',');
+        if (f.size() != 2 || f[0].size() != 1 || f[0][0] < '0' || f[0][0] > '2' || f[1].empty()) return bad("segment");
+        for (char c : f[1]) if (c < '0' || c > '9') return bad("segment");
+        only = std::atoi(f[1].c_str());
+        if (only < 0 || only >= P) return bad("segment");
+        ++nPartial;
+      }
       int s = seg[1] - '0';
       ++nR;
       for (int r = 0; r < P; ++r) {
-        int obj = (s == 1 && !two[r]) ? 0 : s;
+        if (only >= 0 && r != only) continue;
+        int obj = objOf(r, s);
         applyResize(sets[obj], sh[r][obj], pend[r][obj], r == rank);
+        if (r == rank && s != 2) resizedSince = true;
       }
-      if (s != 2) resizedSince = true;
     } else if (kind == 'S') {
       if (seg.size() != 1) return bad("segment");
       ++nS;
@@ -255,12 +318,61 @@ static Result exec(const std::string& line) {
           fail = std::string("isSynced() = ") + (sy ? "true" : "false") + " although " +
                  (resizedSince ? "an index set was resized since the rebuild" : "no index set was resized since the rebuild");
       }
+    } else if (kind == 'F') {
+      if (seg.size() != 1) return bad("segment");
+      ++nF;
+      ri.free();
+      built = false;
+      obs.push_back("f" + std::to_string(ri.neighbours()));
+      if (ri.begin() != ri.end() && fail.empty()) fail = "remote index lists left after free()";
+    } else if (kind == 'X') {
+      if (seg.size() != 2 || (seg[1] != '0' && seg[1] != '1')) return bad("segment");
+      ++nX;
+      if (seg[1] == '1')
+        for (int r = 0; r < P; ++r) std::swap(srcO[r], tgtO[r]);
+      ri.setIndexSets(sets[srcO[rank]], sets[tgtO[rank]], MPI_COMM_WORLD, hints[rank]);
+      built = false;
+      obs.push_back("x" + std::to_string(ri.neighbours()));
+      if (ri.begin() != ri.end() && fail.empty()) fail = "remote index lists left after setIndexSets()";
+      if ((&ri.sourceIndexSet() != &sets[srcO[rank]] || &ri.destinationIndexSet() != &sets[tgtO[rank]]) && fail.empty())
+        fail = "sourceIndexSet()/destinationIndexSet() do not return the sets passed to setIndexSets()";
+    } else if (kind == 'I') {
+      auto f = split(seg.substr(1), ',');
+      if (f.size() != 2 || f[0].empty() || (f[1] != "0" && f[1] != "1")) return bad("segment");
+      for (char c : f[0]) if (c < '0' || c > '9') return bad("segment");
+      int r = std::atoi(f[0].c_str());
+      if (r < 0 || r >= P) return bad("segment");
+      ++nI;
+      incl[r] = f[1] == "1";
+      if (r == rank) ri.setIncludeSelf(incl[r]);
+    } else if (kind == 'N') {
+      std::vector<std::vector<int>> nh;
+      std::vector<bool> nr;
+      if (!parseHints(seg.substr(1), P, nh)) return bad("segment");
+      if (const char* why = hintsProblem(nh, nr)) return bad(why);
+      ++nN;
+      hints = nh;
+      ring = nr;
+      ri.setNeighbours(hints[rank]);
     } else if (kind == 'B') {
       if (seg.size() != 2 || (seg[1] != '0' && seg[1] != '1')) return bad("segment");
       bool ign = seg[1] == '1';
       ++nB;
+      // would rebuild<ign>() really rebuild on this rank?  The ranks must agree, otherwise the call does not return.
+      int need = (!built || ign != lastIgn || !ri.isSynced()) ? 1 : 0;
+      std::vector<int> needs(P);
+      MPI_Allgather(&need, 1, MPI_INT, needs.data(), 1, MPI_INT, MPI_COMM_WORLD);
+      bool agree = true;
+      for (int r = 0; r < P; ++r) if (needs[r] != needs[0]) agree = false;
+      if (!agree) {
+        ++nSkipped;
+        obs.push_back("b!");
+        continue;
+      }
       if (ign) ri.rebuild<true>(); else ri.rebuild<false>();
+      if (need) { bIncl = incl; bHints = hints; bRing = ring; } else ++nNoop;
       built = true;
+      lastIgn = ign;
       resizedSince = false;
       // observe
       std::map<int, std::pair<std::vector<Tuple>, std::vector<Tuple>>> got;
@@ -272,16 +384,19 @@ static Result exec(const std::string& line) {
         o += (firstN ? "" : " ") + std::to_string(it->first) + ":" + show(canon(s)) + "|" + show(canon(r));
         firstN = false;
         nEntries += (long)(s.size() + r.size());
+        maxList = std::max(maxList, (long)std::max(s.size(), r.size()));
+        auto fit = ri.find(it->first);
+        if ((fit == ri.end() || fit->second.first != it->second.first) && fail.empty()) fail = "find(rank) does not return the entry of the iteration";
       }
       obs.push_back(o);
       if ((int)got.size() != ri.neighbours() && fail.empty()) fail = "neighbours() differs from the number of entries";
       // oracle: the set definition, from the shadow decomposition of all ranks
       bool consistent = true;  // hints name every rank this rank shares a published index with
       for (int q = 0; q < P; ++q) {
-        const Shadow& mySrc = sh[rank][0];
-        const Shadow& myTgt = two[rank] ? sh[rank][1] : sh[rank][0];
-        const Shadow& qSrc = sh[q][0];
-        const Shadow& qTgt = two[q] ? sh[q][1] : sh[q][0];
+        const Shadow& mySrc = sh[rank][srcO[rank]];
+        const Shadow& myTgt = sh[rank][tgtO[rank]];
+        const Shadow& qSrc = sh[q][srcO[q]];
+        const Shadow& qTgt = sh[q][tgtO[q]];
         for (auto* S : {&mySrc, &myTgt}) {
           std::set<long> seen;
           for (auto& kv : *S) if (!seen.insert(kv.second.g).second) dupGlobals = true;
@@ -293,14 +408,14 @@ static Result exec(const std::string& line) {
         std::string who = "rank " + std::to_string(rank) + " about " + std::to_string(q) + ": ";
         if (!expS.empty() || !expR.empty()) nontrivial = true;
         if (q == rank) {
-          if (!two[rank] && !incl[rank]) {
+          if (!two[rank] && !bIncl[rank]) {
             if (itq != got.end() && fail.empty()) fail = who + "entry for the process itself although one index set and includeSelf=false";
             continue;
           }
           std::vector<Tuple> minS = joinDef(mySrc, qTgt, ign, true), minR = joinDef(myTgt, qSrc, ign, true);
           if (!two[rank]) { expS = minS; expR = minR; }  // one set, includeSelf: pairs of different attribute only
           bool okS, okR;
-          if (two[rank] && incl[rank]) {  // documented either way: at least the different-attribute pairs, at most all
+          if (two[rank] && bIncl[rank]) {  // documented either way: at least the different-attribute pairs, at most all
             okS = subMultiset(minS, gotS) && subMultiset(gotS, expS);
             okR = subMultiset(minR, gotR) && subMultiset(gotR, expR);
           } else {
@@ -313,10 +428,10 @@ static Result exec(const std::string& line) {
           if (itq != got.end() && gotS.empty() && gotR.empty() && fail.empty()) fail = who + "empty self entry";
           continue;
         }
-        bool hinted = ring[rank] || std::find(hints[rank].begin(), hints[rank].end(), q) != hints[rank].end();
+        bool hinted = bRing[rank] || std::find(bHints[rank].begin(), bHints[rank].end(), q) != bHints[rank].end();
         if (!hinted) {
           if (!expS.empty() || !expR.empty()) consistent = false;  // hints not consistent: property silent about q
-          else if (itq != got.end() && fail.empty()) fail = who + "entry for a process sharing nothing";
+          if (itq != got.end() && fail.empty()) fail = who + "entry for a process that is not a hinted neighbour";
           continue;
         }
         if (expS.empty() && expR.empty()) {
@@ -345,16 +460,38 @@ static Result exec(const std::string& line) {
     stat(ring[0] ? "mode_ring" : "mode_neighbours");
     stat(mixed ? "sets_mixed" : (two[0] ? "sets_two" : "sets_one"));
     if (anyIncl) stat("includeSelf_some");
+    if (anyDflt) stat("default_ctor_some");
     if (dupGlobals) stat("repeated_globals");
     stat("ops_B", nB);
+    stat("ops_B_skipped_disagree", nSkipped);
+    stat("ops_B_noop_rank0", nNoop);
     stat("ops_S", nS);
     stat("ops_R", nR);
+    stat("ops_r_single_rank", nPartial);
+    stat("ops_F", nF);
+    stat("ops_X", nX);
+    stat("ops_I", nI);
+    stat("ops_N", nN);
     stat("remote_index_entries_rank0", nEntries);
+    stat(maxList == 0 ? "maxlist_0" : maxList <= 4 ? "maxlist_1_4" : maxList <= 16 ? "maxlist_5_16" : "maxlist_17_up");
+    size_t tot = 0;
+    for (int o = 0; o < 3; ++o) tot += sh[0][o].size();
+    stat(tot == 0 ? "rank0_sets_empty" : tot <= 8 ? "rank0_sets_1_8" : tot <= 32 ? "rank0_sets_9_32" : "rank0_sets_33_up");
   }
   return res;
 }
 
 // ------------------------------------------------------------------------------------------------------------------
+static std::string hintString(const std::vector<std::set<int>>& nb, bool ringMode) {
+  std::string h;
+  for (size_t p = 0; p < nb.size(); ++p) {
+    if (p) h += "/";
+    if (ringMode || nb[p].empty()) h += "-";
+    else h += join(nb[p].begin(), nb[p].end(), ",");
+  }
+  return h;
+}
+
 static std::string gen(Rng& rng, long, const Args& args) {
   int P;
   MPI_Comm_size(MPI_COMM_WORLD, &P);
@@ -367,28 +504,36 @@ static std::string gen(Rng& rng, long, const Args& args) {
   else if (kind < 82 && P >= 2) mixed = true;
   else if (kind < 82) allTwo = true;
   else dup = true;  // one set on every rank, repeated globals with different attributes
-  std::vector<int> two(P), incl(P);
+  std::vector<int> two(P), incl(P), dflt(P);
   for (int r = 0; r < P; ++r) two[r] = mixed ? (int)rng.below(2) : (allTwo ? 1 : 0);
   if (mixed) { int r = (int)rng.below(P); two[r] = 1; two[(r + 1 + rng.below(P - 1)) % P] = 0; }
   int ik = (int)rng.below(10);
   for (int r = 0; r < P; ++r) incl[r] = ik < 4 ? 0 : (ik < 7 || dup ? 1 : (int)rng.below(2));
+  std::vector<int> inclInit = incl;
+  bool anyDflt = rng.coin(1, 4);
+  for (int r = 0; r < P; ++r) dflt[r] = anyDflt ? (int)rng.below(2) : 0;
   bool ringMode = rng.coin();
+  bool big = rng.coin(1, 14);  // long lists
 
-  int nG = (int)rng.range(1, thorough ? 14 : 9);
+  int nG = big ? (int)rng.range(20, thorough ? 70 : 40) : (int)rng.range(1, thorough ? 14 : 9);
   long base = rng.coin(1, 5) ? -(long)rng.below(4) : (long)rng.below(50);
   int pubKind = (int)rng.below(10);  // 0: none public, 1..2: all public, else mostly
-  double dens = 0.25 + 0.15 * (double)rng.below(5);
+  double dens = big ? 0.5 + 0.1 * (double)rng.below(4) : 0.25 + 0.15 * (double)rng.below(5);
   std::vector<std::string> segs;
   std::vector<std::set<long>> ever(P);
-  // current contents (globals) per rank and set, for choosing deletes and fresh locals
+  // current contents incl. pending adds (global -> attributes) per rank and *object*; roles as in the executor
   std::vector<std::array<std::map<long, std::vector<int>>, 2>> cur(P);
   std::vector<std::array<long, 2>> nextLocal(P, std::array<long, 2>{0, 0});
+  std::vector<int> srcO(P, 0), tgtO(P, 0);
+  for (int r = 0; r < P; ++r) tgtO[r] = two[r] ? 1 : 0;
+  auto objOf = [&](int r, int s) { return s == 0 ? srcO[r] : tgtO[r]; };
   auto pubFlag = [&]() { return pubKind == 0 ? false : (pubKind <= 2 ? true : rng.coin(4, 5)); };
   auto addEntry = [&](int s, int r, long g, int attr) {
-    long l = rng.coin(1, 6) ? (long)rng.below(40) : nextLocal[r][s]++;
+    int o = objOf(r, s);
+    long l = rng.coin(1, 6) ? (long)rng.below(40) : nextLocal[r][o]++;
     segs.push_back("a" + std::to_string(s) + "," + std::to_string(r) + "," + std::to_string(g) + "," + std::to_string(l) +
                    "," + std::to_string(attr) + "," + (pubFlag() ? "1" : "0"));
-    cur[r][s][g].push_back(attr);
+    cur[r][o][g].push_back(attr);
     ever[r].insert(g);
   };
   auto place = [&](long g) {
@@ -398,7 +543,7 @@ static std::string gen(Rng& rng, long, const Args& args) {
       if (on.empty()) on.push_back((int)rng.below(P));  // each global index on a non-empty subset of the ranks
       for (int r : on) {
         if (s == 1 && !two[r]) continue;
-        if (cur[r][s].count(g)) continue;
+        if (cur[r][objOf(r, s)].count(g)) continue;
         int attr = (int)rng.below(4);
         addEntry(s, r, g, attr);
         if (dup && s == 0 && rng.coin(1, 3)) {
@@ -415,24 +560,98 @@ static std::string gen(Rng& rng, long, const Args& args) {
     place(g);
   }
   auto B = [&](int ign) { segs.push_back(std::string("B") + (ign ? "1" : "0")); };
+  // every rank resizes one of its sets, one rank at a time, in a random rank order (the ranks agree that a rebuild is due)
+  auto resizeEachRank = [&]() {
+    std::vector<int> order(P);
+    for (int r = 0; r < P; ++r) order[r] = r;
+    for (int r = P - 1; r > 0; --r) std::swap(order[r], order[rng.below(r + 1)]);
+    for (int r : order) segs.push_back("r" + std::to_string((int)rng.below(2)) + "," + std::to_string(r));
+  };
   int ign = rng.coin(1, 3);
   if (rng.coin(1, 8)) segs.push_back("S");
-  segs.push_back("R0");
-  segs.push_back("R1");
+  if (rng.coin(1, 6)) { resizeEachRank(); segs.push_back("R" + std::to_string((int)rng.below(2))); }
+  else { segs.push_back("R0"); segs.push_back("R1"); }
   if (rng.coin()) segs.push_back("S");
   B(ign);
   segs.push_back("S");
-  int phases = (int)rng.below(thorough ? 4 : 3);
+
+  // hints: symmetric superset of the sharing graph over the whole history (or, "sparse", with some sharing edges
+  // left out: the property is then silent about the unnamed ranks), every rank with a neighbour
+  auto makeHints = [&](bool sparse) {
+    std::vector<std::set<int>> nb(P);
+    for (int p = 0; p < P; ++p)
+      for (int q = p + 1; q < P; ++q) {
+        bool share = false;
+        for (long g : ever[p]) if (ever[q].count(g)) share = true;
+        if (sparse ? rng.coin(1, 2) : (share || rng.coin(1, 4))) { nb[p].insert(q); nb[q].insert(p); }
+      }
+    for (int p = 0; p < P && P >= 2; ++p)
+      if (nb[p].empty()) { int q = (p + 1) % P; nb[p].insert(q); nb[q].insert(p); }
+    for (int p = 0; p < P; ++p) if (rng.coin(1, 5) || P == 1) nb[p].insert(p);  // naming oneself is harmless
+    return nb;
+  };
+
+  int phases = (int)rng.below(thorough ? 5 : 4);
+  std::vector<size_t> hintSlots;  // positions of N segments, filled in when the whole history is known
+  std::vector<int> hintSlotKind;
   for (int ph = 0; ph < phases; ++ph) {
-    int what = (int)rng.below(10);
-    if (what < 2) {  // rebuild again without any resize: same ign (no-op) or the other ign
+    int what = (int)rng.below(20);
+    if (what < 3) {  // rebuild again without any resize: same ign (no-op) or the other ign
       if (rng.coin()) ign = !ign;
       B(ign);
       segs.push_back("S");
       continue;
     }
-    if (what < 3) {  // unrelated resize only
-      segs.push_back("R2");
+    if (what < 5) {  // unrelated resize only
+      if (rng.coin(1, 3)) segs.push_back("r2," + std::to_string((int)rng.below(P)));
+      else segs.push_back("R2");
+      segs.push_back("S");
+      if (rng.coin()) { B(ign); segs.push_back("S"); }
+      continue;
+    }
+    if (what < 6) {  // free, then a rebuild that must really rebuild
+      segs.push_back("F");
+      if (rng.coin()) segs.push_back("S");
+      if (rng.coin(1, 3)) ign = !ign;
+      B(ign);
+      segs.push_back("S");
+      continue;
+    }
+    if (what < 8) {  // setIndexSets again, with the roles kept or exchanged
+      bool swap = rng.coin(2, 3);
+      segs.push_back(swap ? "X1" : "X0");
+      if (swap) for (int r = 0; r < P; ++r) std::swap(srcO[r], tgtO[r]);
+      if (rng.coin()) segs.push_back("S");
+      B(ign);
+      segs.push_back("S");
+      continue;
+    }
+    if (what < 9) {  // setIncludeSelf on one rank: the next rebuild without a resize keeps the old lists
+      int r = (int)rng.below(P);
+      incl[r] = !incl[r];
+      segs.push_back("I" + std::to_string(r) + "," + std::to_string(incl[r]));
+      if (rng.coin()) { B(ign); segs.push_back("S"); }
+      if (rng.coin()) { resizeEachRank(); B(ign); segs.push_back("S"); }
+      else { segs.push_back("F"); B(ign); }
+      continue;
+    }
+    if (what < 10) {  // new neighbour hints (possibly switching between ring and neighbour mode)
+      hintSlots.push_back(segs.size());
+      hintSlotKind.push_back((int)rng.below(4));  // 0: ring, 1: sparse, else covering
+      segs.push_back("N?");
+      if (rng.coin(1, 3)) { B(ign); segs.push_back("S"); }
+      segs.push_back(rng.coin() ? "F" : "R0");
+      B(ign);
+      continue;
+    }
+    if (what < 12 && P >= 2) {  // only some ranks resize: the ranks disagree, the rebuild is skipped; then the others follow
+      std::vector<int> did(P, 0);
+      int n = (int)rng.range(1, P - 1);
+      for (int i = 0; i < n; ++i) { int r = (int)rng.below(P); if (!did[r]) { did[r] = 1; segs.push_back("r" + std::to_string((int)rng.below(2)) + "," + std::to_string(r)); } }
+      segs.push_back("S");
+      B(ign);
+      for (int r = 0; r < P; ++r) if (!did[r]) segs.push_back("r" + std::to_string((int)rng.below(2)) + "," + std::to_string(r));
+      B(ign);
       segs.push_back("S");
       continue;
     }
@@ -440,20 +659,25 @@ static std::string gen(Rng& rng, long, const Args& args) {
     int nd = (int)rng.below(3), na = (int)rng.below(3);
     for (int i = 0; i < nd; ++i) {
       int r = (int)rng.below(P), s = (int)rng.below(2);
-      if (cur[r][s].empty()) continue;
-      auto it = cur[r][s].begin();
-      std::advance(it, rng.below(cur[r][s].size()));
+      if (s == 1 && !two[r]) continue;
+      auto& c = cur[r][objOf(r, s)];
+      if (c.empty()) continue;
+      auto it = c.begin();
+      std::advance(it, rng.below(c.size()));
       segs.push_back("d" + std::to_string(s) + "," + std::to_string(r) + "," + std::to_string(it->first));
-      cur[r][s].erase(it);
+      c.erase(it);
     }
     for (int i = 0; i < na; ++i) {
       long g = rng.coin() ? globals[rng.below(globals.size())] : base + nG * 3 + (long)rng.below(4);
       if (std::find(globals.begin(), globals.end(), g) == globals.end()) globals.push_back(g);
       place(g);
     }
-    int rs = (int)rng.range(1, 3);
-    if (rs & 1) segs.push_back("R0");
-    if (rs & 2) segs.push_back("R1");
+    if (rng.coin(1, 4)) resizeEachRank();
+    else {
+      int rs = (int)rng.range(1, 3);
+      if (rs & 1) segs.push_back("R0");
+      if (rs & 2) segs.push_back("R1");
+    }
     if (rng.coin(1, 4)) segs.push_back("R2");
     segs.push_back("S");
     if (rng.coin(1, 3)) ign = !ign;
@@ -461,27 +685,14 @@ static std::string gen(Rng& rng, long, const Args& args) {
     segs.push_back("S");
     // what is still pending stays pending; later resizes apply it
   }
-  // hints: symmetric superset of the sharing graph over the whole history, every rank with a neighbour
-  std::string hintStr;
-  std::vector<std::set<int>> nb(P);
-  if (!ringMode) {
-    for (int p = 0; p < P; ++p)
-      for (int q = p + 1; q < P; ++q) {
-        bool share = false;
-        for (long g : ever[p]) if (ever[q].count(g)) share = true;
-        if (share || rng.coin(1, 4)) { nb[p].insert(q); nb[q].insert(p); }
-      }
-    for (int p = 0; p < P && P >= 2; ++p)
-      if (nb[p].empty()) { int q = (p + 1) % P; nb[p].insert(q); nb[q].insert(p); }
-    for (int p = 0; p < P; ++p) if (rng.coin(1, 5) || P == 1) nb[p].insert(p);  // naming oneself is harmless
-  }
-  for (int p = 0; p < P; ++p) {
-    if (p) hintStr += "/";
-    if (ringMode || nb[p].empty()) hintStr += "-";
-    else hintStr += join(nb[p].begin(), nb[p].end(), ",");
+  bool sparse = !ringMode && rng.coin(1, 5);
+  std::string hintStr = hintString(makeHints(sparse), ringMode);
+  for (size_t i = 0; i < hintSlots.size(); ++i) {
+    int k = hintSlotKind[i];
+    segs[hintSlots[i]] = "N" + hintString(makeHints(k == 1), k == 0);
   }
   std::string flags;
-  for (int r = 0; r < P; ++r) flags.push_back((char)('0' + two[r] + 2 * incl[r]));
+  for (int r = 0; r < P; ++r) flags.push_back((char)('0' + two[r] + 2 * inclInit[r] + 4 * dflt[r]));
   return "c04 " + std::to_string(P) + " " + flags + " " + hintStr + " : " + join(segs.begin(), segs.end(), ";");
 }
 
